@@ -72,6 +72,11 @@ def main():
         include_dependency(chk, tasks, 'C16', 'dsm', '"the variable-time multiply used by verification" is entered through DoubleScalarMultBasepointVartime (same file), '
                            'which wraps scalarMultVartimeGLV: its receiver/argument handling is decided here as well')
     chk.run_tasks(tasks)
+    gone = {e['task'] for e in chk.extra.get('layers_not_applicable', [])}
+    if 'coord' in gone and ('ladder' in gone or 'table' in gone):
+        # each multiplication layer names the other as its fall-back: if both have no image of the current tree, nothing decides it
+        chk.log('ENGINE-ERROR: neither the abstract-group nor the coordinate-level layer can run the multiplication routines of the current tree')
+        chk.engine_errors = getattr(chk, 'engine_errors', 0) + 1
     chk.discharge()
     chk.finish()
 
@@ -455,7 +460,14 @@ def build(chk, only=''):
                     ctx.assume(tm.ult(k0, toy.n, WT))
                     ctx.assume(tm.band(tm.bnot(tm.eq(l0, 0, WT)), tm.ult(l0, toy.p, WT)))
                     v = X.Ptr(TC.point(m, alg, toy, 'v', k0, l0, extra='any'), ())
-                s = TC.new_scalar(m, sym_limbs('s'))      # the scalar itself is only handed to splitGLV
+                # the scalar itself is only handed to splitGLV (cut above): its limbs are an opaque leaf, so code that reads the scalar
+                # directly (a fast path that bypasses the split) leaves this layer at once instead of being explored over 2^256 values;
+                # such paths are the abstract-group layer's (ladder/*: 'direct' paths)
+                class OpaqueLimbs(list):
+                    def _no(self, *a):
+                        raise X.AbstractionBreach('the scalar is read directly (not through splitGLV) inside the coordinate-level layer')
+                    __iter__ = __getitem__ = __len__ = _no
+                s = X.Ptr(m.new_obj(None, tree=[[], OpaqueLimbs()], label='Scalar s (opaque)'), ())
                 r = m.call(PT + fn, [v, s, p])
                 sub.note_machine(m)
                 ctx.check(len(halves) == 1, 'scalar-split-exactly-once')
@@ -495,7 +507,7 @@ def build(chk, only=''):
             for kP in range(31):
                 kinds = ('any', 'alias', 'fresh') if (chk.thorough or kP in (0, 1)) else (('any', 'alias', 'fresh')[kP % 3],)
                 for kind in kinds:
-                    for lP in (lams if chk.thorough else (lams[(kP + len(kind)) % 4],)):
+                    for lP in ((lams[kP % 4], lams[(kP + 2) % 4]) if chk.thorough else (lams[(kP + len(kind)) % 4],)):
                         for half in (0, 1):
                             for neg in (False, True):
                                 tasks.append(('coord', t_coord(fn, 'short', {
@@ -519,6 +531,10 @@ def build(chk, only=''):
         from . import toycoord as TC
         chk.summaries.update(TC.SUMMARY)
         chk.breach_fallback = dict(getattr(chk, 'breach_fallback', None) or {})
+        # ... and the other way round: a path of the multiplication that bypasses the split (reads the scalar directly) leaves the coordinate
+        # layer, whose scalar is opaque; such paths are decided by the abstract-group layer ('direct' paths of ladder/*).  main() refuses to
+        # let both layers of the same run step aside.
+        chk.breach_fallback['coord'] = ('breach-only', "the abstract-group tasks ladder/* ('direct' paths: windows must spell the scalar itself), all scalars")
         chk.breach_fallback.update({'ladder': 'the coordinate-level tasks coord/F_43/* (toy curve; every group element with one nibble per half, listed P with 1..2 symbolic nibbles per half)',
                                     'table': 'the coordinate-level tasks coord/F_43/* (toy curve)'})
         chk.bounds.append('coordinate level, toy curve y^2=x^3+7 over F_43 (order 31) with the toy image of the endomorphism: ScalarMult / scalarMultVartimeGLV executed end to end '
